@@ -119,7 +119,7 @@ pub open spec fn recv_ok(m: PulledMessage, r: ReceivedMessage) -> bool {
 }
 //@fn src/api/subscriber.rs conflict tags=C15
 //@ ret r
-//@ ensures r.code == Code::FailedPrecondition
+//@ ensures[C15,NEEDS-WITNESS] r.code == Code::FailedPrecondition
 //@end
 //@fn src/api/subscriber.rs pull_messages tags=C15 keep-paths=1
 //@ ret r
@@ -127,7 +127,7 @@ pub open spec fn recv_ok(m: PulledMessage, r: ReceivedMessage) -> bool {
 //@ ensures[C15] (match r { Ok(v) => limit_ok(v@.len() as int, max_messages), Err(_) => true })
 //@ # C09: ... and each of them carries the content and ids of the lease at the same position
 //@ ensures[C09] (match r { Ok(v) => exists|p: Seq<PulledMessage>| #[trigger] handed_out(*subscription, max_messages, p) && p.len() == v@.len() && forall|i: int| 0 <= i < p.len() ==> recv_ok(p[i], v@[i]), Err(_) => true })
-//@ ensures[C15] (match r { Ok(_) => true, Err(e) => e.code == Code::FailedPrecondition })
+//@ ensures[C15,NEEDS-WITNESS] (match r { Ok(_) => true, Err(e) => e.code == Code::FailedPrecondition })
 //@ closure 1 ret st: Status
 //@ closure 1 ensures st.code == Code::FailedPrecondition
 //@end
@@ -215,7 +215,7 @@ pub mod publisher {
     pub struct PublisherService { pub x: u64 }
 //@fn src/api/publisher.rs conflict tags=C10
 //@ ret r
-//@ ensures r.code == Code::FailedPrecondition
+//@ ensures[C10,NEEDS-WITNESS] r.code == Code::FailedPrecondition
 //@end
 //@fn src/api/publisher.rs topic_not_found tags=C10
 //@ ret r
